@@ -228,7 +228,13 @@ func runImpl(c *Case) {
 	case "pair":
 		c.Impl = pairOutputs(c.T.In(loc), c.T2.In(c.Zone2.Loc()))
 	case "per":
-		c.Impl = perOutputs(c.Raw, c.Per[0].In(loc), c.Per[1].In(loc), c.Per[2].In(loc), c.Per[3].In(loc))
+		// the second period (and the instant the point queries use) may be represented in another Location: the answers
+		// are functions of the instants, never of the representation of a time.Time
+		loc2 := loc
+		if c.Zone2.Name != "" {
+			loc2 = c.Zone2.Loc()
+		}
+		c.Impl = perOutputs(c.Raw, c.Per[0].In(loc), c.Per[1].In(loc), c.Per[2].In(loc2), c.Per[3].In(loc2))
 	case "win":
 		c.Impl = winOutputs(c.T.In(loc), time.Duration(c.Size), int(c.Nd))
 	case "sweep":
